@@ -148,7 +148,7 @@ Print Assumptions C12_every_closer_once.
 (* ... and the code before the fix: AddCloser passes its test, Run shuts down and returns,
    AddCloser appends and returns nil.  The closer is registered, has no goroutine and never will. *)
 Theorem C12_every_closer_once_refuted :
-  exists s errs, run_c Original (new_cm false [Free None] []) addcloser_race = Some s /\
+  exists s errs, run_c Original (new_cm None [Free None] []) addcloser_race = Some s /\
     c_pc s = CDone errs /\ nth_error (addcl s) 0 = Some (ACAccepted 0) /\
     closers s = [User (Some 7%Z)] /\ c_procs s = [] /\ step_c Original s CClosing = None.
 Proof. exact cm_every_closer_once_refuted. Qed.
@@ -182,7 +182,8 @@ Proof. exact cm_close_same_error. Qed.
 Print Assumptions C12_close_same_error.
 
 (* FATAL IFF THE CLOSERS OUTLAST THE GRACE PERIOD.  The fatal action is called at most once, and
-   only after the grace timer was delivered; without a grace period never.  Once the fatal
+   only after the grace timer was delivered (C12_grace_elapsed says when that can happen); without
+   a grace period never.  Once the fatal
    closer has made its choice and it was not a tie (its select never ran with both the timer and
    closeFatalShutdown ready), the fatal action was called exactly if the timer was delivered while
    closeFatalShutdown was still open ([fired_early]; closeFatalShutdown is closed when one result
@@ -193,10 +194,28 @@ Theorem C12_fatal_iff_outlast : forall v grace bs cls es s,
   (fatal_count s = 1 -> timer_fired s = true) /\
   (decidedb (fatal_state (c_procs s)) = true -> tie s = false ->
      (fatal_count s = 1 <-> fired_early s = true)) /\
-  (grace = false -> fatal_count s = 0) /\
+  (grace = None -> fatal_count s = 0) /\
   (forall s', step_c v s CFire = Some s' -> fired_early s' = negb (fch_closed s)).
 Proof. exact cm_fatal_iff_outlast. Qed.
 Print Assumptions C12_fatal_iff_outlast.
+
+(* WHEN THE GRACE PERIOD HAS ELAPSED.  [new_cm (Some d)] = a manager created with a grace period of
+   d nanoseconds, ANY integer.  The grace timer is created when the fatal closer starts ([elapsed]
+   is 0 then and grows with the clock, never negative).  The timer is delivered only on a manager
+   created with a grace period, and only once the clock has advanced by at least that much since;
+   from then on it can be delivered for as long as the fatal closer waits - in particular at
+   once for 0 and for negative values: those are grace periods that every closer which does not
+   return at once outlasts, not "no grace period". *)
+Theorem C12_grace_elapsed : forall v grace bs cls es s,
+  run_c v (new_cm grace bs cls) es = Some s ->
+  (0 <= elapsed s)%Z /\
+  (forall s', step_c v s CFire = Some s' -> exists d, grace = Some d /\ (d <= elapsed s)%Z) /\
+  (forall d j, grace = Some d -> find_fatal_running (c_procs s) 0 = Some j ->
+     timer_fired s = false -> (d <= elapsed s)%Z -> exists s', step_c v s CFire = Some s') /\
+  (forall d j, grace = Some d -> (d <= 0)%Z -> find_fatal_running (c_procs s) 0 = Some j ->
+     timer_fired s = false -> exists s', step_c v s CFire = Some s').
+Proof. exact cm_grace_elapsed. Qed.
+Print Assumptions C12_grace_elapsed.
 
 (* CLOSE BEFORE RUN.  On a manager that was never started Close returns nil without waiting for
    anything; and from then on nothing ever runs: along every continuation no runner and no closer
@@ -256,9 +275,9 @@ Print Assumptions C12_close_reaches_runners.
    appends and returns nil, the inner manager starts: one runner waiting for its context, Close
    called, no close-runner - the runner cannot return and Close stays blocked. *)
 Theorem C12_close_reaches_runners_refuted :
-  (exists s, run_c Original (new_cm false [] []) add_watcher_race = Some s /\
+  (exists s, run_c Original (new_cm None [] []) add_watcher_race = Some s /\
              close_cannot_stop s (step_c Original)) /\
-  (exists s, run_c_gen Fixed Original (new_cm false [] []) add_watcher_race = Some s /\
+  (exists s, run_c_gen Fixed Original (new_cm None [] []) add_watcher_race = Some s /\
              close_cannot_stop s (step_c_gen Fixed Original)).
 Proof. exact cm_close_reaches_runners_refuted. Qed.
 Print Assumptions C12_close_reaches_runners_refuted.
